@@ -149,7 +149,8 @@ Definition run_boxed (N sz : nat) (d : list Z) : list (list Z) :=
   run_boxed_once N sz d ++ run_boxed_once N sz d.
 
 (* ------------------------------------------------------------------------- *)
-(* in-place operations on 2-channel frames; format 0 = i32, 1 = f32 (bits), 2 = u8 *)
+(* in-place operations on frames; format 0 = [i32;2], 1 = [f32;2] (bits), 2 = [u8;2],
+   3 = f32 (a bare sample as a one-channel frame; frames are one-element lists) *)
 
 Definition zmap2 (f : Z -> Z -> Z) (a b : list Z) : list Z :=
   map (fun p => f (fst p) (snd p)) (combine a b).
@@ -159,11 +160,11 @@ Definition f32_mul (x y : Z) : Z := F32.bits (F32.mul (F32.of_bits x) (F32.of_bi
 
 (* Frame::add_amp / mul_amp on arrays: channel-wise Sample::add_amp / mul_amp *)
 Definition fr_add (fmt : Z) (a b : list Z) : list Z :=
-  match fmt with 1 => zmap2 f32_add a b | _ => zmap2 Z.add a b end.
+  match fmt with 1 | 3 => zmap2 f32_add a b | _ => zmap2 Z.add a b end.
 Definition fr_mul (fmt : Z) (b amp : list Z) : list Z :=
-  match fmt with 1 => zmap2 f32_mul b amp | _ => b end.
+  match fmt with 1 | 3 => zmap2 f32_mul b amp | _ => b end.
 Definition fr_equilibrium (fmt : Z) : list Z :=
-  match fmt with 2 => [128; 128] | _ => [0; 0] end.
+  match fmt with 2 => [128; 128] | 3 => [0] | _ => [0; 0] end.
 
 (* the closures the harness passes to map_in_place / zip_map_in_place (i32 frames) *)
 Definition clo_map (k : Z) (f : list Z) : list Z :=
